@@ -448,6 +448,19 @@ NP.round = _round
 NP.around = _round
 
 
+def _trace(a, *args, **kw):
+    if isinstance(a, SArr):
+        a = a.materialize()
+    if _has_sym(a):
+        a = _oarr(a)
+        tot = 0
+        for k in range(min(a.shape[0], a.shape[1])):
+            tot = tot + a[k, k]
+        return tot
+    return _np.trace(a, *args, **kw)
+NP.trace = _trace
+
+
 def _where(c, *a):
     if _has_sym(c):
         raise Undecided("np.where on symbolic condition")
